@@ -5,13 +5,13 @@ EXTENDS BigMeter, Json, TLC
 CONSTANT TraceFile
 Trace == ndJsonDeserialize(TraceFile)
 
-VARIABLE i
+VARIABLES i, bt            \* bt: Bignum!BitTables, computed once in Init
 
-Verdict(e) == IF ~Consistent(e) THEN "malformed" ELSE IF Valid(e) THEN "ok" ELSE "bad"
+Verdict(e) == IF ~Consistent(bt, e) THEN "malformed" ELSE IF Valid(e) THEN "ok" ELSE "bad"
 
-Init == i = 0
-Next == i < Len(Trace) /\ i' = i + 1
-Spec == Init /\ [][Next]_i
+Init == i = 0 /\ bt = BitTables
+Next == i < Len(Trace) /\ i' = i + 1 /\ UNCHANGED bt
+Spec == Init /\ [][Next]_<<i, bt>>
 
 Judged == i = 0 \/ LET e == Trace[i]
                        v == Verdict(e)
